@@ -365,3 +365,35 @@ Example C19_source_step_on_witness :
   = SOk (true, [ARmTree (1, 0); AMkIter 1; AMkPlate (1, 0);
                 ALaunch (1, 0) (LFirst (SFile (0, 1) KAdvanced) (SFile (0, 0) KTraining))])%Z.
 Proof. vm_compute. reflexivity. Qed.
+
+(* ---- the helper functions examine and run_next_* call are the translated ones (src_examine / src_run_next_* above call
+   src_get_screen_from_job_output etc., not a primitive); each equals the model definition the theorems above use.  A glob
+   for one file name under a job directory is a model primitive (at most one match: the <name> level is abstracted); the
+   tests for "no match", the preference of advanced_screen.h5 over training.screen.h5, the [0], the None returns, the
+   loop over the selected_plate files and the ValueError come from the translation. *)
+Theorem C19_model_is_source_get_screen_from_job_output : forall p : plate_path,
+  src_get_screen_from_job_output p = SOk (screen_of (Some p)).
+Proof. exact src_get_screen_is_model. Qed.
+Print Assumptions C19_model_is_source_get_screen_from_job_output.
+
+Theorem C19_model_is_source_validate_job_dir_and_return_meta : forall p : plate_path,
+  src_validate_job_dir_and_return_meta p = SOk (f_meta (snd p)).
+Proof. exact src_validate_is_model. Qed.
+Print Assumptions C19_model_is_source_validate_job_dir_and_return_meta.
+
+(* it globs for training.screen.h5 (as the model's LFirst command says) *)
+Theorem C19_model_is_source_get_test_screen_from_job_output : forall (f : fs) (s : step),
+  src_get_test_screen_from_job_output (f, s) = SOk (if has_training f s then Some (SFile s KTraining) else None).
+Proof. exact src_get_test_screen_is_model. Qed.
+Print Assumptions C19_model_is_source_get_test_screen_from_job_output.
+
+Theorem C19_model_is_source_get_theta_and_dist_chunks : forall (done : list action) (f : fs) (s : step),
+  src_get_theta_and_dist_chunks done (f, s) = if has_thetas_dist f s then SOk s else SRaised done 2.
+Proof. exact src_get_thetas_is_model. Qed.
+Print Assumptions C19_model_is_source_get_theta_and_dist_chunks.
+
+(* None when no selection is recorded: the command then has no --excludes (next_cmd) *)
+Theorem C19_model_is_source_get_selected_plates : forall (f : fs) (i : Z),
+  src_get_selected_plates (f, i) = SOk (match selected_plates f i with [] => None | l => Some l end).
+Proof. exact src_get_selected_is_model. Qed.
+Print Assumptions C19_model_is_source_get_selected_plates.
